@@ -152,15 +152,26 @@ class ContentElement:
       if self.parent() is not None:
         raise RuntimeError("Element must be removed from parent first")
 
-      self.set_region(None)
+      # detach the element and all its descendants
 
-    else:
-
-      # attaching
+      # pylint: disable=W0212
 
       for e in self.dfs_iterator():
-        if e.is_attached():
-          raise RuntimeError("Element must be detached first")
+        e._region = None
+        e._doc = None
+
+      # pylint: enable=W0212
+
+      return
+
+    # attaching
+
+    if self.parent() is not None and self.parent().get_doc() is not doc:
+      raise RuntimeError("Element must be attached through the root of its tree")
+
+    for e in self.dfs_iterator():
+      if e.is_attached():
+        raise RuntimeError("Element must be detached first")
 
     self._doc = doc
 
